@@ -473,4 +473,26 @@ theorem c04_fetch_hop_no_hints (ids : List SV.IDStr.IDSrc)
 example : SV.IDStr.extractIDs (SV.IDStr.makeFetchReq [⟨5, 7, [97]⟩, ⟨3, 2, []⟩]) = some [⟨5, 7, [97]⟩, ⟨3, 2, []⟩] := by
   decide
 
+/-- **the public Fetch handler asks for what search returned**: the loop of `grpcV1.Fetch` over the request's texts
+yields, for the texts a search response carried, exactly those IDs in that order (within `MaxRequestedDocuments`) -/
+theorem c04_api_fetch_ids (maxReq : Nat) (ids : List (Nat × Nat))
+    (h : ∀ i, i ∈ ids → i.1 < 18446744073709551616 ∧ i.2 < 18446744073709551616)
+    (hmax : maxReq = 0 ∨ ids.length ≤ maxReq) :
+    SV.IDStr.apiFetchIDs maxReq (ids.map fun i => SV.IDStr.idString i.1 i.2) = some ids :=
+  SV.IDStr.apiFetchIDs_within maxReq ids h hmax
+
+/-- a malformed text in the request is skipped without disturbing the other IDs -/
+theorem c04_api_fetch_skips_malformed (a b : List (List Nat)) (bad : List Nat) (hbad : SV.IDStr.fromString bad = none) :
+    SV.IDStr.apiParse (a ++ bad :: b) = SV.IDStr.apiParse a ++ SV.IDStr.apiParse b :=
+  SV.IDStr.apiParse_skips_malformed a b bad hbad
+
+example : SV.IDStr.fromString [120] = none := by decide
+
+/-- the handler has the shape the model follows: parse, skip on error, append otherwise; every document sent carries
+`doc.ID.String()` -/
+theorem c04_x_api_fetch_ids :
+    SV.Extracted.C04.apiFetchIDLoop =
+      ["seqID, err := seq.FromString(id)", "if err != nil { appends: } else { ids = append(ids, seqID) }"] ∧
+    SV.Extracted.C04.apiFetchSentID = ["doc.ID.String()"] := by decide
+
 end SV.Props.C04
